@@ -48,6 +48,7 @@ type ReplayOutcome struct {
 	Input      string `json:"failing_input,omitempty"`
 	Output     string `json:"output"`
 	TestSource string `json:"test_source"`
+	Race       bool   `json:"race,omitempty"`
 }
 
 func writeReplay(p *Prog, pd *PropDef, ob *Obligation, opts SolveOpts) (string, bool) {
@@ -76,7 +77,7 @@ func writeReplay(p *Prog, pd *PropDef, ob *Obligation, opts SolveOpts) (string, 
 		}
 		src := strings.ReplaceAll(buildReplayTest(rc), "__FUNC__", ob.Func)
 		out, repro := runReplayTest(p.RepoDir, src, rc.Race)
-		rf.Replay = &ReplayOutcome{Case: rc.Pattern, Reproduced: repro, Output: tail(out, 4000), TestSource: src}
+		rf.Replay = &ReplayOutcome{Case: rc.Pattern, Reproduced: repro, Output: tail(out, 4000), TestSource: src, Race: rc.Race}
 		if repro {
 			found = true
 			for _, l := range strings.Split(out, "\n") {
@@ -195,3 +196,85 @@ func runOracle(repo, prop string) (out, src string, ok bool) {
 }
 
 var _ = fmt.Sprintf
+
+// cmdReplay re-runs what a replay file records against the current tree: the test that reproduced the failure
+// (or the property's oracle, or the bounded check), else the obligation's SMT query. Exit 1: the failure is still
+// there; exit 0: it is not.
+func cmdReplay(args []string) {
+	repo := "/repo"
+	verif := "/verif"
+	if len(args) < 1 {
+		fmt.Fprintln(os.Stderr, "usage: pvc replay <replay file>")
+		os.Exit(2)
+	}
+	b, err := os.ReadFile(args[0])
+	if err != nil {
+		fmt.Fprintln(os.Stderr, err)
+		os.Exit(2)
+	}
+	var m map[string]any
+	if json.Unmarshal(b, &m) != nil {
+		fmt.Fprintln(os.Stderr, "not a replay file")
+		os.Exit(2)
+	}
+	str := func(k string) string { s, _ := m[k].(string); return s }
+	prop, obl := str("property"), str("obligation")
+	fmt.Printf("replay of %s (property %s)\n", obl, prop)
+	oracleDir = filepath.Join(verif, "oracles")
+	if str("kind") == "bounded" {
+		name := strings.TrimPrefix(obl, "bounded/")
+		for _, bd := range loadBounded(verif, prop) {
+			if bd.Name == name {
+				br := runBounded(repo, verif, bd, "quick")
+				fmt.Printf("bounded check %s: ran=%v cases=%d failures=%d\n", name, br.Ran, br.Cases, br.Failures)
+				for _, f := range br.Fails {
+					fmt.Println("REPRODUCED:", f)
+				}
+				if !br.Ran || br.Failures > 0 {
+					os.Exit(1)
+				}
+				os.Exit(0)
+			}
+		}
+		fmt.Println("no such bounded check")
+		os.Exit(2)
+	}
+	if rp, ok := m["replay"].(map[string]any); ok {
+		src, _ := rp["test_source"].(string)
+		cs, _ := rp["case"].(string)
+		race, _ := rp["race"].(bool)
+		out := ""
+		ran := false
+		if strings.HasPrefix(src, "package pongo2") {
+			out, _ = runReplayTest(repo, src, race)
+			ran = true
+		} else if strings.HasPrefix(cs, "oracle ") {
+			out, _, ran = runOracle(repo, prop)
+		}
+		if ran {
+			fmt.Println(tail(out, 3000))
+			if strings.Contains(out, "REPRODUCED:") {
+				os.Exit(1)
+			}
+			fmt.Println("the recorded experiment no longer reproduces a failure on this tree")
+		}
+	}
+	if smt := str("smt_file"); smt != "" {
+		if sb, err := os.ReadFile(smt); err == nil {
+			dir, _ := os.MkdirTemp("", "pvcreplay")
+			defer os.RemoveAll(dir)
+			out, _, _ := runSolver(solvers[0], string(sb), 20000, dir, "replay", 30*time.Second)
+			a := parseAnswers(out)
+			ans := "unknown"
+			if len(a) > 0 {
+				ans = a[0]
+			}
+			fmt.Printf("the obligation's query (as generated when the file was written) is answered %s by %s\n", ans, solvers[0].Name)
+			if ans != "unsat" {
+				os.Exit(1)
+			}
+			os.Exit(0)
+		}
+	}
+	os.Exit(0)
+}
